@@ -9,7 +9,7 @@
 //! file cases (strat 4 / 5 / 6 = sequential / interleaved / weighted): input = (k seed (file ...) orc), a file = its RAW
 //! BYTES, written as they are; the real `train_data_generator_from_jsonl` reads them; output as above with
 //! items = ((tag (1 input target)) | (tag (0 error-class)) ...). JSON cases (7): text -> serde_json's Value as a tree.
-//! print cases (8): (input [target]) -> serde_json::to_string of the object. line cases (9): bytes -> the strings
+//! print cases (8 w): (input [target]) -> serde_json::to_string of the object (w = 0) / Python's json.dumps line (w = 1). line cases (9): bytes -> the strings
 //! `LossyUtf8Reader::lines()` yields and their count. See C07_Files.v.
 use rand::distr::weighted::WeightedIndex;
 use rand::distr::Distribution as _;
@@ -1255,7 +1255,7 @@ fn gen_print_case(rng: &mut Rng) -> Val {
     if rng.chance(1, 2) {
         a.push(Val::str(&gen_payload(rng)));
     }
-    Val::L(vec![Val::I(8), Val::I(0), Val::L(a), Val::L(vec![])])
+    Val::L(vec![Val::I(8), Val::I(rng.below(2) as i64), Val::L(a), Val::L(vec![])])
 }
 
 /// bytes that make the lossy decoder work: leads of every length, continuation bytes, the special second bytes
@@ -1330,6 +1330,15 @@ fn run_print_case(input: &Val) -> Option<(Val, Vec<String>)> {
         return None;
     }
     let i = a[0].to_string_lossy()?;
+    if input.nth(1)?.as_i()? == 1 {
+        // the line json.dumps of Python writes, re-implemented here (`py_string`)
+        let mut line = format!("{{\"input\": {}", py_string(&i));
+        if a.len() == 2 {
+            line.push_str(&format!(", \"target\": {}", py_string(&a[1].to_string_lossy()?)));
+        }
+        line.push('}');
+        return Some((Val::str(&line), vec!["print".into(), "py".into(), "nt".into()]));
+    }
     let mut m = serde_json::Map::new();
     if a.len() == 2 {
         // inserted first on purpose: the map orders the keys itself
@@ -1391,7 +1400,7 @@ fn canon_file_level(k: i64, l: &[Val]) -> Option<Val> {
         8 => {
             let a: Vec<Val> = l[2].as_l()?.iter().take(2).map(|s| list(s, &cp)).collect();
             let a = if a.is_empty() { vec![Val::L(vec![])] } else { a };
-            Val::L(vec![Val::I(8), Val::I(0), Val::L(a), Val::L(vec![])])
+            Val::L(vec![Val::I(8), Val::I(l[1].as_i().unwrap_or(0).rem_euclid(2)), Val::L(a), Val::L(vec![])])
         }
         _ => {
             let cap = l[1].as_i().unwrap_or(1).rem_euclid(64).max(1);
